@@ -191,7 +191,38 @@ def C10_7(ctx, facts):
     c11.every_popped_started(ctx, facts)
 
 
+def C10_8(ctx, facts):
+    """Candidate set-up is not allowed to abort the whole connect: in TcpConnecting::connect every address popped from the
+    list becomes an attempt in the EyeballSet before the next pop / before the set is awaited / before any return.  (An early
+    return - e.g. a `?` on per-candidate socket set-up - would report one candidate's failure although others could still succeed.)"""
+    from core import L_variant
+    f = facts.fn("client::conn::transport::tcp::TcpConnecting::connect::{closure#0}")
+    ctx.touched(f)
+    pops = f.calls("client::conn::dns::SocketAddrs::pop")
+    pushes = f.calls("happy_eyeballs::EyeballSet::push")
+    ctx.floor("TcpConnecting::connect|pop", len(pops), 1, "addresses.pop()")
+    ctx.floor("TcpConnecting::connect|push", len(pushes), 1, "attempts.push(..)")
+    for p in pops:
+        some = [(a, b) for (a, b, lab) in f.edges() if lab is not None and lab.kind == "variant" and lab.variants == {"Some"} and
+                f.call_defining(lab.place["l"]) is not None and f.call_defining(lab.place["l"]).bb == p.bb]
+        ctx.floor("TcpConnecting::connect|pop-some-edge", len(some), 1, "Some edge of addresses.pop()")
+        mine = {c.bb for c in pushes}
+        for (a, b) in some:
+            targets = [q.bb for q in pops] + list(f.returns) + [t for t in f.live if f.term(t)["k"] == "yield"]
+            bad = None
+            for t in targets:
+                pth = f.path(b, [t], avoid_blocks=mine)
+                if pth is not None:
+                    bad = pth
+                    break
+            ctx.check(bad is None, "TcpConnecting::connect|popped-address-attempted",
+                      "every address popped becomes an attempt of the set before anything else happens: one candidate's set-up cannot end the connect",
+                      "an address can be popped without becoming an attempt (early return / skipped candidate): a single candidate's set-up failure would fail the whole connect",
+                      p.where(), f.path_desc(bad))
+
+
 RULES = [
+    ("C10.8", C10_8, ["default"]),
     ("C10.7", C10_7, ["default"]),
     ("C10.1", C10_1, ["default"]),
     ("C10.2", C10_2_3, ["default"]),
